@@ -342,6 +342,18 @@ where
         proofs: &[Proof<E>],
         rng: &mut R,
     ) -> Result<bool, Error> {
+        if commitments.len() != points.len()
+            || points.len() != values.len()
+            || values.len() != proofs.len()
+        {
+            return Err(Error::IncorrectInputLength(format!(
+                "batch_check expects equally many commitments, points, values and proofs, got {}, {}, {} and {}",
+                commitments.len(),
+                points.len(),
+                values.len(),
+                proofs.len()
+            )));
+        }
         let check_time =
             start_timer!(|| format!("Checking {} evaluation proofs", commitments.len()));
 
